@@ -235,6 +235,8 @@ def analyse_measure_like(prog, m, amp, q, sp, KS, KP):
                 raise KP.NotPairwise('accumulation loop writes amplitudes')
             accs[b] = acc
         ids = set(accs[0]) | set(accs[1])
+        if len(ids) == 0:
+            raise PartialSweep('%s: the first sweep accumulates nothing (no `p += |amplitude|²` under the bit test)' % m.short, loops[0].get('ln'))
         if len(ids) != 1:
             raise KP.NotPairwise('expected one accumulator, found %d' % len(ids))
         p1_id = list(ids)[0]
